@@ -1,6 +1,7 @@
 //! pvharness <property> --seed N --count K --out DIR [--tmp DIR]
 //! Runs the real crate on generated inputs and writes cases / observations for the Coq model to re-evaluate.
 mod c07;
+mod c08;
 mod gen;
 mod out;
 mod rng;
@@ -31,6 +32,8 @@ fn main() {
     let mut count = 200usize;
     let mut outdir = String::from("out");
     let mut tmp = String::from("/tmp/pvharness_tmp");
+    let mut thorough = false;
+    let mut _replay: Option<String> = None;
     let mut i = 2;
     while i + 1 < args.len() {
         match args[i].as_str() {
@@ -38,6 +41,8 @@ fn main() {
             "--count" => count = args[i + 1].parse().expect("count"),
             "--out" => outdir = args[i + 1].clone(),
             "--tmp" => tmp = args[i + 1].clone(),
+            "--thorough" => thorough = args[i + 1] == "1",
+            "--replay" => _replay = Some(args[i + 1].clone()),
             other => {
                 eprintln!("unknown option {other}");
                 std::process::exit(2);
@@ -57,6 +62,7 @@ fn main() {
     let mut out = out::Out::new(&outdir);
     match prop.as_str() {
         "C07" => c07::run(seed, count, &mut out, &tmp),
+        "C08" => c08::run(seed, count, thorough, &mut out),
         other => {
             eprintln!("unknown property {other}");
             std::process::exit(2);
